@@ -272,7 +272,18 @@ pub fn make(b: &Board, m: ChessMove) -> (String, Option<Board>) {
             .unwrap_or(false);
             let sane = guard(|| n.is_sane()).unwrap_or(false);
             let gh = guard(|| n.get_hash());
-            format!("{} same={} sane={} gh={}", dump(n), b01(same), b01(sane), opt(gh.map(hx)))
+            let fen = guard(|| format!("{}", n));
+            format!(
+                "{} same={} sane={} gh={} fen={}",
+                dump(n),
+                b01(same),
+                b01(sane),
+                opt(gh.map(hx)),
+                match fen {
+                    Some(t) => hex_text(&t),
+                    None => "PANIC".to_string(),
+                }
+            )
         }
     };
     (format!("MAKE {} {} => {}", before, mv(m), res), succ)
@@ -422,6 +433,17 @@ fn bld_alt(d: &BD, r: &Option<Result<Board, Error>>) -> String {
             .en_passant(d.ep.map(chess::File::from_index));
         BD::of_builder(&bb) == *d && Board::try_from(&bb).ok() == prim
     });
+    chk!("BoardBuilder::setter-order", {
+        // the builder state is "the last value given to each field": any order of the setter calls, with
+        // earlier junk values overwritten later, must give the same state, the same text and the same board
+        let bb = d.builder_shuffled();
+        let prim_bb = d.builder();
+        BD::of_builder(&bb) == *d
+            && format!("{}", bb) == format!("{}", prim_bb)
+            && bb.get_en_passant() == prim_bb.get_en_passant()
+            && bb.get_side_to_move() == prim_bb.get_side_to_move()
+            && Board::try_from(&bb).ok() == prim
+    });
     "OK".to_string()
 }
 
@@ -451,7 +473,16 @@ pub fn bfen(d: &BD) -> String {
             )
         }
     };
-    format!("BFEN {} => {}", d.text(), res)
+    // the same state reached through another order of setter calls renders the same way
+    let alt = match guard(|| {
+        let bb = d.builder_shuffled();
+        Some(format!("{}", bb)) == text && BD::of_builder(&bb) == *d
+    }) {
+        None => "PANIC:BoardBuilder::setter-order",
+        Some(false) => "DIFF:BoardBuilder::setter-order",
+        Some(true) => "OK",
+    };
+    format!("BFEN {} => {} alt={}", d.text(), res, alt)
 }
 
 pub fn bparse(text: &str) -> String {
